@@ -81,6 +81,8 @@ br_rsa_i32_private(unsigned char *x, const br_rsa_private_key *sk)
 	 */
 	br_i32_decode(mp, p, plen);
 	br_i32_decode(mq, q, qlen);
+	BR_VERIF_PUBLIC(mp, sizeof mp[0]);
+	BR_VERIF_PUBLIC(mq, sizeof mq[0]);
 
 	/*
 	 * Recompute modulus, to compare with the source value.
